@@ -5,11 +5,14 @@
    What is proved here: the integer pipeline (uniform_int_distribution through
    Lemire's multiply-and-reject, vita::random::between) returns lo <= v < hi for every
    engine state and every fuel -- the H_draws contract for integers is a theorem, not
-   an assumption.  The rejection loop is bounded by [fuel]; exhaustion is [None]/[AFail]
+   an assumption; so is the one for booleans (boolean(0)=false, boolean(1)=true) and the fact that the
+   canonical real is a finite double in [0,1).  NOT proved: lo <= between<double>(lo,hi) <= hi (two more
+   roundings; it stays a checked contract).  The rejection loop is bounded by [fuel]; exhaustion is [None]/[AFail]
    (it cannot be proved impossible for an arbitrary generator).
    Nothing else lives in this file. *)
-From Coq Require Import NArith ZArith List Bool.
-From VV Require Import Base.F64 Rng.RngDefs Rng.RngProofs Rng.DistDefs Rng.DistProofs.
+From Coq Require Import NArith ZArith List Bool Reals.
+From Flocq Require Import Core IEEE754.BinarySingleNaN.
+From VV Require Import Base.F64 Rng.RngDefs Rng.RngProofs Rng.DistDefs Rng.DistProofs Rng.DistRealProofs.
 Import ListNotations.
 Local Open Scope Z_scope.
 
@@ -33,6 +36,22 @@ Proof.
   destruct (between_int_range fuel lo hi st v st' Hr H) as [H1 _]. exact H1.
 Qed.
 Print Assumptions C07_between_int_in_range_reachable.
+
+(* generate_canonical<double,53>(engine): a finite double u with 0 <= u < 1, for every 64-bit engine state
+   (proved from Flocq's binary_normalize / Bmult / Bdiv / Bcompare correctness theorems) *)
+Theorem C07_canonical_in_unit_interval : forall st, wf st ->
+  let u := fst (canonical st) in
+  is_finite u = true /\ (0 <= B2R u < 1)%R /\ F64.leb F64.zero u = true /\ F64.ltb u (F64.of_Z 1) = true.
+Proof. exact canonical_unit. Qed.
+Print Assumptions C07_canonical_in_unit_interval.
+
+(* vita::random::boolean(p) = std::bernoulli_distribution(p)(engine): boolean(0) is false and boolean(1) is true
+   for every 64-bit engine state -- the H_draws contract for booleans is a theorem *)
+Theorem C07_boolean_contract : forall p st, wf st ->
+  (F64.eqb p F64.zero = true -> fst (boolean p st) = false) /\
+  (F64.eqb p (F64.of_Z 1) = true -> fst (boolean p st) = true).
+Proof. exact boolean_contract. Qed.
+Print Assumptions C07_boolean_contract.
 
 (* a whole sequence of requests answered from a seed: every integer answer is in range *)
 Theorem C07_draw_sequence_int_answers_in_range : forall fuel qs old s,
